@@ -56,6 +56,37 @@ func runBounds(a map[string]string, r *common.Rng, n int) {
 	rt, _ := value.ToInternal(ctx.CompileString("0"))
 	pool := []int{-9, -5, -3, -1, 0, 1, 2, 5, 10, 11, 0, 0, -128, 127, 255, -32768, 32767, 65535}
 	ops := []string{"gt", "ge", "lt", "le", "ne"}
+	mk := func(tok string) adt.Value {
+		if tok == "int" {
+			return &adt.BasicType{K: adt.IntKind}
+		}
+		if tok == "string" {
+			return &adt.BasicType{K: adt.StringKind}
+		}
+		f := strings.Split(tok, ":")
+		return &adt.BoundValue{Op: boundAdtOps[f[0]], Value: &adt.Num{K: adt.IntKind, X: *apd.New(int64(common.Atoi(f[1], 0)), 0)}}
+	}
+	render := func(vals []adt.Value) string {
+		e, err := export.Simplified.Value(rt, "", &adt.Conjunction{Values: vals})
+		if err != nil || e == nil {
+			return "ERR"
+		}
+		var parts []ast.Expr
+		flattenAndAst(e, &parts)
+		var ss []string
+		for _, p := range parts {
+			ss = append(ss, tokOf(p))
+		}
+		return strings.Join(ss, " ")
+	}
+	if c := a["--case"]; c != "" { // replay of one conjunction
+		var vals []adt.Value
+		for _, t := range strings.Fields(c) {
+			vals = append(vals, mk(t))
+		}
+		out.Emit("B "+c, render(vals))
+		return
+	}
 	for i := 0; i < n; i++ {
 		k := 1 + r.Intn(6)
 		var toks []string
@@ -75,17 +106,6 @@ func runBounds(a map[string]string, r *common.Rng, n int) {
 				vals = append(vals, &adt.BoundValue{Op: boundAdtOps[op], Value: &adt.Num{K: adt.IntKind, X: *apd.New(int64(z), 0)}})
 			}
 		}
-		e, err := export.Simplified.Value(rt, "", &adt.Conjunction{Values: vals})
-		res := "ERR"
-		if err == nil && e != nil {
-			var parts []ast.Expr
-			flattenAndAst(e, &parts)
-			var ss []string
-			for _, p := range parts {
-				ss = append(ss, tokOf(p))
-			}
-			res = strings.Join(ss, " ")
-		}
-		out.Emit("B "+strings.Join(toks, " "), res)
+		out.Emit("B "+strings.Join(toks, " "), render(vals))
 	}
 }
